@@ -111,7 +111,8 @@ def judge(case, ctx, prefix='C15'):
     for k in range(1, case['cycles'] + 1):
         if case['via_file']:
             with tempfile.TemporaryDirectory() as td:
-                fn = os.path.join(td, 'schematic.json')
+                os.makedirs(os.path.join(td, 'proj.d'), exist_ok=True)
+                fn = os.path.join(td, 'proj.d', f'schematic.v{k}.json')      # dots in the directory and in the stem: only the last suffix is the format
                 r = call(sdl.dump, fn, cur)
                 nxt = call(sdl.load, fn) if not raised(r) else r
         else:
